@@ -23,6 +23,8 @@ From RX.Proofs Require Import PositionProofs ErrPosStream ErrPosTokenizer ErrPos
 From RX Require GeneratedDisplay.
 From RX.Model Require ErrDisplay.
 From RX.Proofs Require ErrDisplayProofs.
+From RX Require GeneratedErrors.
+From RX.Proofs Require ErrorEnumTie.
 Open Scope N_scope.
 
 (* ---- Proofs/PositionProofs.v ---- *)
@@ -418,3 +420,34 @@ Proof. exact display_payload. Qed.
 Print Assumptions C14_display_payload.
 
 End G10.
+
+(* ---- Proofs/ErrorEnumTie.v ---- *)
+Module G11.
+Import RX.GeneratedErrors. Import RX.Model.ErrDisplay. Import RX.Proofs.ErrorEnumTie. Local Open Scope list_scope.
+Theorem C14_error_enum_tie :
+  forall e, lookup (error_name e) error_enum = Some (map fty_of (error_fields e)).
+Proof. exact error_enum_tie. Qed.
+Print Assumptions C14_error_enum_tie.
+
+Theorem C14_error_enum_complete :
+  (forall n tys, In (n, tys) error_enum -> exists e, error_name e = n) /\
+  nodup_b (map fst error_enum) = true /\ length error_enum = length witnesses.
+Proof. exact error_enum_complete. Qed.
+Print Assumptions C14_error_enum_complete.
+
+Theorem C14_error_pos_tie :
+  forall e, pos_of_table e = Some (error_pos e).
+Proof. exact error_pos_tie. Qed.
+Print Assumptions C14_error_pos_tie.
+
+Theorem C14_pos_field_last :
+  forall e,
+  match lookup (error_name e) pos_table with
+  | Some (Some i) => S i = length (error_fields e)
+  | Some None => error_fields e = []
+  | None => False
+  end.
+Proof. exact pos_field_last. Qed.
+Print Assumptions C14_pos_field_last.
+
+End G11.
